@@ -346,8 +346,20 @@ def include_handling(ctx, repo):
     xr = repo.mod("misc/xmlReader.py").func("XMLReader._startElementHandler")
     from ..core import private_callees
 
+    # name-insensitive: some os.path.join(A, B) in the handler (or a helper it calls) where A is bound from
+    # os.path.dirname(self.file.name) and B from attrs.get('src')
     txt = norm(xr.node) + "\n" + "\n".join(norm(h.node) for h in private_callees(repo, xr))
-    ok = "attrs.get('src')" in txt and "os.path.join(dirname, subFile)" in txt and "os.path.dirname(self.file.name)" in txt
+    ok = False
+    for g in [xr] + list(private_callees(repo, xr)):
+        defs = {}
+        for n in walk_no_nested(g.node):
+            if isinstance(n, ast.Assign) and isinstance(n.targets[0], ast.Name):
+                defs.setdefault(n.targets[0].id, set()).add(norm(n.value))
+        for c in calls_in(g.node):
+            if norm(c.func) == "os.path.join" and len(c.args) == 2 and all(isinstance(a, ast.Name) for a in c.args):
+                a, b = c.args[0].id, c.args[1].id
+                if "os.path.dirname(self.file.name)" in defs.get(a, ()) and "attrs.get('src')" in defs.get(b, ()):
+                    ok = True
     ctx.ob("F7i", xr.where, "reader resolves src= against the including file's directory", ok)
     ok = all("self.ttFont" in norm(c) for c in calls_in(xr.node) if call_name(c) == "XMLReader") and any(call_name(c) == "XMLReader" for c in calls_in(xr.node))
     ctx.ob("F7i", xr.where, "sub-readers share the font object", ok)
